@@ -1,155 +1,341 @@
 /-
   C01 — Option fields hold exactly what the command line denotes.
 
-  What one occurrence does to the parser (`Option.Set` in the model), for every declaration,
-  state and value: it writes the occurrence's own option as the property prescribes for the
-  field's kind, and writes no other option.  Plain fields are outside the option tables
-  altogether (`untagged_field_is_no_option`).
+  Two layers.  Props/C01/Step.lean: what ONE occurrence does (`Option.Set`: which option it
+  writes, what it stores, clearing rule, choices, callbacks).  This file: WHOLE command lines, of
+  any length — the argument loop over a list of occurrences is the fold of the per-occurrence
+  step (`parseLoop_of_occurrences`), that fold is one `Option.Set` after the other on the options
+  the names resolve to (`applyOccs_is_setAll`), and from there the denotation: a scalar holds the
+  conversion of its last occurrence's argument, a slice one element per occurrence in order,
+  options that are not named are not touched.  (Occurrences are taken in the spelling `--name=V`
+  / `--flag`; C02 proves that the other spellings reach the same `parseOption` call.)
 -/
-import GoFlags.Parse
-import GoFlags.Lemmas.Tables
+import GoFlags.Props.C01.Step
+import GoFlags.Lemmas.Occurrences
 
 namespace GoFlags.C01
 open GoFlags Bytes
 
-/-- a callback never writes the parser -/
-theorem call_leaves_parser (E : Env) (help : HelpFn) (P : Parser) (r : ORef) (v : Option Bytes) (log : List Event) :
-    (optCall E help P r v log).1 = P := by
-  unfold optCall
-  simp only
-  split
-  · split
+/-- **The argument loop over a whole command line of option occurrences is the fold of the
+    per-occurrence step**: for every list of occurrences `--name=V` / `--flag` of options in scope,
+    of any length, if no occurrence is rejected then the loop ends in exactly the state reached by
+    applying the occurrences one after the other, with nothing left over. -/
+theorem parseLoop_of_occurrences (E : Env) (help : HelpFn) (items : List Occ) :
+    ∀ (fuel : Nat) (s : PS), items.length < fuel → s.args = renderOccs items →
+      (∀ it ∈ items, OccOK s.P s.cmd it) → (applyOccs E help s items).2 = none →
+      parseLoop E help fuel s = (applyOccs E help s items).1 := by
+  induction items with
+  | nil =>
+    intro fuel s hf hargs _ _
+    cases fuel with
+    | zero => simp at hf
+    | succ fuel =>
+      unfold parseLoop
+      simp [PS.eof, hargs, renderOccs, applyOccs]
+  | cons it rest ih =>
+    intro fuel s hf hargs hok hres
+    cases fuel with
+    | zero => simp at hf
+    | succ fuel =>
+      obtain ⟨ht, r, hl, hc⟩ := hok it (by simp)
+      have hargs' : s.args = longToken it.1 it.2 :: renderOccs rest := by simpa [renderOccs] using hargs
+      rw [parseLoop_long_token E help fuel s it.1 it.2 (renderOccs rest) ht hargs']
+      unfold applyOccs at hres ⊢
+      have hk := parseLong_keeps E help { s with arg := longToken it.1 it.2, args := renderOccs rest } it.1 it.2 (by
+        cases h2 : it.2 with
+        | some V => left; rfl
+        | none =>
+          right
+          intro r' hr'
+          simp only at hr'
+          rw [hl] at hr'
+          cases hr'
+          exact hc h2)
+      generalize parseLong E help { s with arg := longToken it.1 it.2, args := renderOccs rest } it.1 it.2 = res at hk hres ⊢
+      obtain ⟨s', e⟩ := res
+      cases e with
+      | some e => simp at hres
+      | none =>
+        simp only at hres ⊢
+        apply ih fuel s' (by simp at hf; omega) hk.args
+        · intro it' hit'
+          rw [hk.cmd]
+          exact OccOK_of_sameDecl hk.decl.symm _ _ (hok it' (by simp [hit']))
+        · exact hres
+
+theorem applyOccs_is_setAll (E : Env) (help : HelpFn) (items : List Occ) :
+    ∀ s : PS, (∀ it ∈ items, OccOK s.P s.cmd it) → (applyOccs E help s items).2 = none →
+      (applyOccs E help s items).1.P = (setAll E help s.cmd s.P s.log items).1 ∧
+      (applyOccs E help s items).1.log = (setAll E help s.cmd s.P s.log items).2 ∧
+      (applyOccs E help s items).1.cmd = s.cmd ∧ (applyOccs E help s items).1.retargs = s.retargs ∧
+      (applyOccs E help s items).1.err = s.err := by
+  induction items with
+  | nil => intro s _ _; simp [applyOccs, setAll]
+  | cons it rest ih =>
+    intro s hok hres
+    obtain ⟨ht, r, hl, hc⟩ := hok it (by simp)
+    unfold applyOccs at hres ⊢
+    unfold setAll
+    let s0 : PS := { s with arg := longToken it.1 it.2, args := renderOccs rest }
+    have hk := parseLong_keeps E help s0 it.1 it.2 (by
+      cases h2 : it.2 with
+      | some V => left; rfl
+      | none =>
+        right; intro r' hr'
+        have : s0.P.lookupLong s0.cmd it.1 = some r := hl
+        rw [this] at hr'; cases hr'; exact hc h2)
+    have hacc := fun h => parseLong_accepted E help s0 it.1 it.2 r hl hc h
+    change (match parseLong E help s0 it.1 it.2 with | (s', none) => applyOccs E help s' rest | (s', some e) => (s', some e)).2 = none at hres
+    change (match parseLong E help s0 it.1 it.2 with | (s', none) => applyOccs E help s' rest | (s', some e) => (s', some e)).1.P = _ ∧ _
+    generalize hpl : parseLong E help s0 it.1 it.2 = res at hk hres hacc ⊢
+    obtain ⟨s', e⟩ := res
+    cases e with
+    | some e => simp at hres
+    | none =>
+      simp only at hres hk hacc ⊢
+      obtain ⟨v, hv, _, hs'⟩ := hacc trivial
+      simp only [hl, hv]
+      have hs'P : s'.P = (optSet E help s.P r v s.log).1 := by rw [hs']
+      have hs'log : s'.log = (optSet E help s.P r v s.log).2.1 := by rw [hs']
+      have hok' : ∀ it' ∈ rest, OccOK s'.P s'.cmd it' := by
+        intro it' hit'
+        rw [hk.cmd]
+        exact OccOK_of_sameDecl hk.decl.symm _ _ (hok it' (by simp [hit']))
+      obtain ⟨h1, h2, h3, h4, h5⟩ := ih s' hok' hres
+      have hv' : occArg s.P r it.2 = some v := hv
+      have hcmd : s'.cmd = s.cmd := hk.cmd
+      have hret : s'.retargs = s.retargs := hk.ret
+      have herr : s'.err = s.err := hk.err
+      simp only [hv']
+      refine ⟨?_, ?_, ?_, ?_, ?_⟩
+      · rw [h1, hs'P, hs'log, hcmd]
+      · rw [h2, hs'P, hs'log, hcmd]
+      · rw [h3, hcmd]
+      · rw [h4, hret]
+      · rw [h5, herr]
+
+/-- **Options no occurrence names are not touched**, whatever else is on the command line. -/
+theorem options_not_named_are_untouched (E : Env) (help : HelpFn) (ci : Nat) (r0 : ORef) (items : List Occ) :
+    ∀ (P : Parser) (log : List Event), (∀ it ∈ items, P.lookupLong ci it.1 ≠ some r0) →
+      (setAll E help ci P log items).1.opt r0 = P.opt r0 := by
+  induction items with
+  | nil => intro P log _; rfl
+  | cons it rest ih =>
+    intro P log hno
+    unfold setAll
+    split
+    · next r hr =>
+      split
+      · next v hv =>
+        have hne : r ≠ r0 := by intro e; apply hno it (by simp); rw [hr, e]
+        rw [ih _ _ (by
+          intro it' hit'
+          rw [(optSet_decl E help P r v log).lookupLong]
+          exact hno it' (by simp [hit']))]
+        exact C01.set_touches_only_its_option E help P r r0 v log hne
+      · rfl
     · rfl
-    · split <;> rfl
-  · split <;> rfl
 
-/-- An occurrence of option `r` never changes any other option's value or flags. -/
-theorem set_touches_only_its_option (E : Env) (help : HelpFn) (P : Parser) (r r' : ORef)
-    (v : Option Bytes) (log : List Event) (h : r ≠ r') :
-    (optSet E help P r v log).1.opt r' = P.opt r' := by
-  unfold optSet
-  simp only
-  cases h1 : choiceRejected (P.opt r).markSet v
-  · simp only [Bool.false_eq_true, if_false]
-    cases h2 : (P.opt r).markSet.ty.isFunc
-    · simp only [Bool.false_eq_true, if_false]
-      cases convert E (P.opt r).markSet.tag (v.getD []) (P.opt r).markSet.ty (P.opt r).markSet.val <;>
-        simp only [Parser.opt_modOpt_ne _ _ _ _ h]
-    · simp only [if_true]; rw [call_leaves_parser]; simp only [Parser.opt_modOpt_ne _ _ _ _ h]
-  · simp only [if_true, Parser.opt_modOpt_ne _ _ _ _ h]
+/-- **A scalar option holds the conversion of its last occurrence's argument**, whatever comes
+    before it (earlier occurrences of the same option included) and whatever other options come
+    after it, for command lines of any length. -/
+theorem scalar_holds_last_occurrence (E : Env) (help : HelpFn) (ci : Nat) (P : Parser) (log : List Event)
+    (pre post : List Occ) (n V : Bytes) (r : ORef) (sc : Sc)
+    (hacc : Accepted E help ci P log (pre ++ (n, some V) :: post))
+    (hl : P.lookupLong ci n = some r) (hr : r.valid P) (hty : (P.opt r).ty = .sc sc)
+    (hpost : ∀ it ∈ post, P.lookupLong ci it.1 ≠ some r) :
+    ∃ a v', occArg P r (some V) = some (some a) ∧ convertSc E (P.opt r).tag a sc = .ok v' ∧
+      ((setAll E help ci P log (pre ++ (n, some V) :: post)).1.opt r).val = .sc v' := by
+  obtain ⟨hpre, hrest⟩ := Accepted_append E help ci pre _ P log hacc
+  rw [setAll_append E help ci pre _ P log hpre]
+  generalize hP1 : (setAll E help ci P log pre).1 = P1 at hrest ⊢
+  generalize (setAll E help ci P log pre).2 = log1 at hrest ⊢
+  have hd1 : SameDecl P1 P := by rw [← hP1]; exact setAll_decl E help ci pre P log
+  obtain ⟨r', v, hl', hv, he, hpostacc⟩ := hrest
+  have hl1 : P1.lookupLong ci n = some r := by rw [hd1.lookupLong]; exact hl
+  have hrr : r' = r := by
+    have : P1.lookupLong ci n = some r' := hl'
+    rw [hl1] at this; cases this; rfl
+  subst hrr
+  have hopt : (P1.opt r').decl = (P.opt r').decl := hd1.opt r'
+  have hty1 : (P1.opt r').ty = .sc sc := by
+    have : (P1.opt r').decl.ty = (P.opt r').decl.ty := by rw [hopt]
+    exact this.trans hty
+  have htag1 : (P1.opt r').tag = (P.opt r').tag := by
+    have : (P1.opt r').decl.tag = (P.opt r').decl.tag := by rw [hopt]
+    exact this
+  have hca : (P1.opt r').ty.canArgument = (P.opt r').ty.canArgument := by rw [hty1, hty]
+  -- the argument handed to Set
+  have hv' : occArg P r' (some V) = some v := by
+    have : occArg P1 r' (some V) = some v := hv
+    unfold occArg at this ⊢
+    simp only [hca, htag1] at this
+    exact this
+  unfold setAll
+  simp only [hl1]
+  have hv1 : occArg P1 r' (some V) = some v := hv
+  simp only [hv1]
+  -- v is `some a`
+  have hvsome : ∃ a, v = some a := by
+    unfold occArg at hv1
+    simp only at hv1
+    split at hv1
+    · cases hq : (if tagGet (P1.opt r').tag (B "unquote") ≠ B "false" then unquoteIfPossible V else some V) with
+      | none => rw [hq] at hv1; simp at hv1
+      | some a => rw [hq] at hv1; simp at hv1; exact ⟨a, hv1.symm⟩
+    · simp at hv1
+  obtain ⟨a, rfl⟩ := hvsome
+  have hr1 : r'.valid P1 := hd1.symm.valid r' hr
+  have hfun : (P1.opt r').ty.isFunc = false := by rw [hty1]; rfl
+  obtain ⟨v', hconv, hval⟩ := optSet_accepted_val E help P1 r' hr1 a log1 hfun he
+  rw [hty1] at hconv
+  simp only [convert] at hconv
+  cases hcs : convertSc E (P1.opt r').tag a sc with
+  | error m => rw [hcs] at hconv; simp [Except.map] at hconv
+  | ok sv =>
+    rw [hcs] at hconv
+    simp [Except.map] at hconv
+    refine ⟨a, sv, hv', by rw [← htag1]; exact hcs, ?_⟩
+    rw [options_not_named_are_untouched E help ci r' post _ _ (by
+      intro it hit
+      rw [((optSet_decl E help P1 r' (some a) log1).trans hd1).lookupLong]
+      exact hpost it hit)]
+    rw [hval, ← hconv]
 
-/-- the field content an occurrence starts from: previous contents of a slice or map are
-    discarded at the first occurrence after a parse starts (`clearReferenceBeforeSet`) -/
-def startValue (o : Opt) : Val :=
-  if o.ty.isRef && o.clearRef then o.ty.emptyValue else o.val
+/-- **A slice option holds one element per occurrence, in command-line order**: after any accepted
+    command line on which every occurrence of the option carries an argument, the option's
+    elements are those it started from (none, at the first occurrence after a parse has begun)
+    followed by the conversions of the arguments of its occurrences, in the order they were typed;
+    other options' occurrences in between do not matter. -/
+theorem slice_holds_every_occurrence_in_order (E : Env) (help : HelpFn) (ci : Nat) (r : ORef) (sc : Sc) (items : List Occ) :
+    ∀ (P : Parser) (log : List Event), Accepted E help ci P log items → r.valid P → (P.opt r).ty = .slice sc →
+      (∀ it ∈ items, P.lookupLong ci it.1 = some r → it.2 ≠ none) →
+      ∃ vs, ConvAll E (P.opt r).tag sc (argsOf P ci r items) vs ∧
+        ((setAll E help ci P log items).1.opt r).val =
+          (if argsOf P ci r items = [] then (P.opt r).val
+           else .slice false (sliceElems (C01.startValue (P.opt r)) ++ vs)) := by
+  induction items with
+  | nil =>
+    intro P log _ _ _ _
+    exact ⟨[], by simp [argsOf, ConvAll], by simp [argsOf, setAll]⟩
+  | cons it rest ih =>
+    intro P log hacc hr hty hargd
+    obtain ⟨r', v, hl, hv, he, hrest⟩ := hacc
+    have hd1 := optSet_decl E help P r' v log
+    have hr1 : r.valid (optSet E help P r' v log).1 := hd1.symm.valid r hr
+    have hopt1 : ((optSet E help P r' v log).1.opt r).decl = (P.opt r).decl := hd1.opt r
+    have hty1 : ((optSet E help P r' v log).1.opt r).ty = .slice sc := by
+      have : ((optSet E help P r' v log).1.opt r).decl.ty = (P.opt r).decl.ty := by rw [hopt1]
+      exact this.trans hty
+    have htag1 : ((optSet E help P r' v log).1.opt r).tag = (P.opt r).tag := by
+      have : ((optSet E help P r' v log).1.opt r).decl.tag = (P.opt r).decl.tag := by rw [hopt1]
+      exact this
+    have hargd1 : ∀ it' ∈ rest, (optSet E help P r' v log).1.lookupLong ci it'.1 = some r → it'.2 ≠ none := by
+      intro it' hit' hl'
+      rw [hd1.lookupLong] at hl'
+      exact hargd it' (by simp [hit']) hl'
+    obtain ⟨vs, hfa, hval⟩ := ih _ _ hrest hr1 hty1 hargd1
+    rw [argsOf_sameDecl hd1] at hfa hval
+    rw [htag1] at hfa
+    have hstep : setAll E help ci P log (it :: rest) =
+        setAll E help ci (optSet E help P r' v log).1 (optSet E help P r' v log).2.1 rest := by
+      conv => lhs; unfold setAll
+      simp only [hl, hv]
+    rw [hstep]
+    by_cases hrr : r' = r
+    · subst hrr
+      -- this occurrence names r, and carries an argument
+      have hfun : (P.opt r').ty.isFunc = false := by rw [hty]; rfl
+      have hne := hargd it (by simp) hl
+      obtain ⟨V, hV⟩ := Option.ne_none_iff_exists'.mp hne
+      have hvs : ∃ a, v = some a := by
+        rw [hV] at hv
+        unfold occArg at hv
+        simp only at hv
+        split at hv
+        · cases hq : (if tagGet (P.opt r').tag (B "unquote") ≠ B "false" then unquoteIfPossible V else some V) with
+          | none => rw [hq] at hv; simp at hv
+          | some a => rw [hq] at hv; simp at hv; exact ⟨a, hv.symm⟩
+        · simp at hv
+      obtain ⟨a, rfl⟩ := hvs
+      obtain ⟨v', hconv, hnew⟩ := optSet_accepted_val E help P r' hr a log hfun he
+      have hnewclr : ((optSet E help P r' (some a) log).1.opt r').clearRef = false := by
+        have hcv : convert E (P.opt r').tag a (P.opt r').ty (C01.startValue (P.opt r')) = .ok v' := hconv
+        have hbad : (P.opt r').choices = [] ∨ a ∈ (P.opt r').choices := by
+          -- accepted, so the choice test passed
+          obtain ⟨_, _, hch, _, _⟩ := C01.markSet_fields (P.opt r')
+          by_cases hc0 : (P.opt r').choices = []
+          · exact Or.inl hc0
+          · right
+            unfold optSet at he
+            simp only at he
+            cases hb : choiceRejected (P.opt r').markSet (some a) with
+            | true => simp [hb] at he
+            | false =>
+              unfold choiceRejected at hb
+              rw [hch] at hb
+              simpa [hc0] using hb
+        exact (C01.set_stores_conversion E help P r' hr a log v' hfun hbad hcv).2.2.2
+      -- the conversion appended one element
+      rw [hty] at hconv
+      have hconv' : ∃ sv, convertSc E (P.opt r').tag a sc = .ok sv ∧
+          v' = .slice false (sliceElems (C01.startValue (P.opt r')) ++ [sv]) := by
+        simp only [convert] at hconv
+        cases hcs : convertSc E (P.opt r').tag a sc with
+        | error m => rw [hcs] at hconv; simp [bind, Except.bind] at hconv
+        | ok sv =>
+          rw [hcs] at hconv
+          simp only [bind, Except.bind] at hconv
+          refine ⟨sv, rfl, ?_⟩
+          cases hsv : C01.startValue (P.opt r') <;> rw [hsv] at hconv <;> simp [sliceElems] at hconv ⊢ <;> exact hconv.symm
+      obtain ⟨sv, hcs, hv'⟩ := hconv'
+      have hargs : argsOf P ci r' (it :: rest) = a :: argsOf P ci r' rest := by
+        simp [argsOf, hl, hv]
+      rw [hargs]
+      have hstart1 : C01.startValue ((optSet E help P r' (some a) log).1.opt r') = v' := by
+        rw [startValue_of_not_clearRef _ hnewclr, hnew]
+      refine ⟨sv :: vs, ⟨hcs, hfa⟩, ?_⟩
+      rw [hval]
+      simp only [List.cons_ne_nil, if_false]
+      split
+      · next hnil =>
+        rw [hnil] at hfa
+        cases vs with
+        | nil => rw [hnew, hv']
+        | cons _ _ => simp [ConvAll] at hfa
+      · rw [hstart1, hv']
+        simp [sliceElems]
+    · -- another option's occurrence: r is not touched
+      have hsame : (optSet E help P r' v log).1.opt r = P.opt r :=
+        C01.set_touches_only_its_option E help P r' r v log hrr
+      have hargs : argsOf P ci r (it :: rest) = argsOf P ci r rest := by
+        unfold argsOf
+        simp only [List.filterMap_cons, hl]
+        simp [hrr]
+      rw [hargs]
+      rw [hsame] at hval
+      exact ⟨vs, hfa, hval⟩
 
-theorem markSet_fields (o : Opt) :
-    o.markSet.ty = o.ty ∧ o.markSet.tag = o.tag ∧ o.markSet.choices = o.choices ∧
-    o.markSet.isSet = true ∧ o.markSet.clearRef = false := by
-  unfold Opt.markSet Opt.empty
-  simp only
-  split <;> (try split) <;> simp
+/-! ### Non-vacuity -/
 
-theorem markSet_val (o : Opt) (hfun : o.ty.isFunc = false) : o.markSet.val = startValue o := by
-  unfold Opt.markSet Opt.empty startValue
-  simp only [hfun]
-  split <;> simp
+/-- a parser with one string option `--n` and one string-slice option `--l` -/
+def exP : Parser :=
+  { cmds := [{ groups := [{ opts := [{ long := B "n", ty := .sc .str }, { long := B "l", ty := .slice .str, clearRef := true }] }] }] }
 
-/-- What an accepted occurrence stores (non-callback option whose value passes the choice test
-    and converts): the conversion of this occurrence's argument applied to `startValue`; the
-    option is marked set and stops clearing. -/
-theorem set_stores_conversion (E : Env) (help : HelpFn) (P : Parser) (r : ORef) (hr : r.valid P)
-    (arg : Bytes) (log : List Event) (v' : Val)
-    (hfun : (P.opt r).ty.isFunc = false)
-    (hchoice : (P.opt r).choices = [] ∨ arg ∈ (P.opt r).choices)
-    (hconv : convert E (P.opt r).tag arg (P.opt r).ty (startValue (P.opt r)) = .ok v') :
-    (optSet E help P r (some arg) log).2.2 = none ∧
-    ((optSet E help P r (some arg) log).1.opt r).val = v' ∧
-    ((optSet E help P r (some arg) log).1.opt r).isSet = true ∧
-    ((optSet E help P r (some arg) log).1.opt r).clearRef = false := by
-  obtain ⟨hty, htag, hch, hset, hclr⟩ := markSet_fields (P.opt r)
-  have hval := markSet_val (P.opt r) hfun
-  have hbad : choiceRejected (P.opt r).markSet (some arg) = false := by
-    unfold choiceRejected; rw [hch]
-    rcases hchoice with h | h <;> simp [h]
-  unfold optSet
-  simp only [hbad, hty, hfun, htag, hval, hconv, Option.getD_some, Bool.false_eq_true, if_false]
-  simp only [Parser.opt_modOpt_modOpt_same _ _ _ _ hr]
-  simp [hset, hclr]
+def exHelp : HelpFn := fun _ => []
 
-/-- An occurrence whose value is not one of the declared choices is rejected with
-    ErrInvalidChoice, whatever the value. -/
-theorem set_rejects_non_choice (E : Env) (help : HelpFn) (P : Parser) (r : ORef) (arg : Bytes) (log : List Event)
-    (hne : (P.opt r).choices ≠ []) (hnot : arg ∉ (P.opt r).choices) :
-    ∃ msg, (optSet E help P r (some arg) log).2.2 = some (.flags .invalidChoice msg) := by
-  obtain ⟨_, _, hch, _, _⟩ := markSet_fields (P.opt r)
-  have hbad : choiceRejected (P.opt r).markSet (some arg) = true := by
-    unfold choiceRejected; rw [hch]; simp [hne, hnot]
-  unfold optSet
-  simp only [hbad, if_true]
-  exact ⟨_, rfl⟩
+example : exP.lookupLong 0 (B "n") = some ⟨0, 0, 0⟩ := by decide
+example : exP.lookupLong 0 (B "l") = some ⟨0, 0, 1⟩ := by decide
 
-/-- scalar: the field holds the conversion of *this* (hence, after a sequence, the last) occurrence -/
-theorem scalar_last_wins (E : Env) (tag : Tag) (arg : Bytes) (s : Sc) (cur cur' : Val) :
-    convert E tag arg (.sc s) cur = convert E tag arg (.sc s) cur' := by
-  simp [convert]
+/-- non-vacuity of the whole-command-line theorems: the command line `--n=a --l=x --n=b` is
+    accepted by this parser (every hypothesis of `scalar_holds_last_occurrence` is met with
+    pre = [--n=a, --l=x], the occurrence --n=b, post = []) -/
+example : Accepted default exHelp 0 exP [] [(B "n", some (B "a")), (B "l", some (B "x")), (B "n", some (B "b"))] := by
+  refine ⟨⟨0,0,0⟩, some (B "a"), by decide, rfl, rfl, ?_⟩
+  refine ⟨⟨0,0,1⟩, some (B "x"), ?_, rfl, rfl, ?_⟩
+  · rw [(optSet_decl ..).lookupLong]; decide
+  refine ⟨⟨0,0,0⟩, some (B "b"), ?_, rfl, rfl, trivial⟩
+  rw [((optSet_decl ..).trans (optSet_decl ..)).lookupLong]; decide
 
-/-- slice: one more element, appended at the end, earlier elements and their order kept -/
-theorem slice_appends (E : Env) (tag : Tag) (arg : Bytes) (s : Sc) (nil : Bool) (xs : List SVal) (v : SVal)
-    (h : convertSc E tag arg s = .ok v) :
-    convert E tag arg (.slice s) (.slice nil xs) = .ok (.slice false (xs ++ [v])) := by
-  simp [convert, h]; rfl
-
-/-- map: `key:value` stores `value` under `key`, replacing an earlier value for that key -/
-theorem map_inserts (E : Env) (tag : Tag) (k v : Bytes) (ks vs : Sc) (nil : Bool) (kvs : List (SVal × SVal))
-    (kv vv : SVal) (hk : 0x3A ∉ k) (h1 : convertSc E tag k ks = .ok kv) (h2 : convertSc E tag v vs = .ok vv) :
-    convert E tag (k ++ 0x3A :: v) (.map ks vs) (.map nil kvs) = .ok (.map false (mapInsert kv vv kvs)) := by
-  have hcut : cut 0x3A (k ++ 0x3A :: v) = (k, some v) := by
-    clear h1
-    induction k with
-    | nil => simp [cut]
-    | cons a t ih =>
-      have ha : a ≠ 0x3A := by intro h; apply hk; simp [h]
-      have ht : 0x3A ∉ t := by intro h; apply hk; simp [h]
-      have := ih ht
-      simp [cut, ha, this]
-  simp [convert, hcut, h1, h2]; rfl
-
-theorem mapInsert_lookup (k v : SVal) (kvs : List (SVal × SVal)) :
-    (mapInsert k v kvs).lookup k = some v := by
-  induction kvs with
-  | nil => simp [mapInsert, List.lookup]
-  | cons p t ih =>
-    obtain ⟨k', v'⟩ := p
-    unfold mapInsert
-    by_cases h : k' = k
-    · simp [h, List.lookup]
-    · have : (k == k') = false := by simp [Ne.symm h]
-      simp [h, List.lookup, this, ih]
-
-/-- flag: an occurrence (no argument) makes it true -/
-theorem flag_becomes_true (E : Env) (tag : Tag) (cur : Val) :
-    convert E tag [] (.sc .bool) cur = .ok (.sc (.bool true)) := by
-  simp [convert, convertSc]; rfl
-
-/-- callback: runs once per occurrence with the converted argument, field untouched -/
-theorem callback_runs_once (E : Env) (help : HelpFn) (P : Parser) (r : ORef) (arg : Bytes) (s : Sc) (e : Bool)
-    (a : SVal) (log : List Event) (hty : (P.opt r).ty = .func (some s) e) (hcb : (P.opt r).cb ≠ 1)
-    (hconv : convertSc E (P.opt r).tag arg s = .ok a) :
-    (optCall E help P r (some arg) log).2.1 = log ++ [.cb r (some a)] ∧ (optCall E help P r (some arg) log).1 = P := by
-  unfold optCall
-  simp [hty, hconv, hcb]
-
-/-- Plain fields: a field without `long`, `short` and `ini-name` yields no option at all, so no
-    transition of the model can address it. -/
-theorem untagged_field_is_no_option (name : Bytes) (mt : Tag) (t : Ty) (init : Val) (cb : Nat)
-    (h1 : tagGet mt (B "long") = []) (h2 : tagGet mt (B "short") = []) (h3 : tagGet mt (B "ini-name") = []) :
-    mkOption name mt t init cb = .ok none := by
-  simp [mkOption, h1, h2, h3]
-
-/-! Non-vacuity: a concrete slice option receives two occurrences. -/
-example : convert default [] [0x61] (.slice .str) (.slice true []) = .ok (.slice false [.str [0x61]]) := rfl
-example : convert default [] [0x62] (.slice .str) (.slice false [.str [0x61]]) =
-    .ok (.slice false [.str [0x61], .str [0x62]]) := rfl
-
+example : TypableLong (B "n") := ⟨by decide, by decide, by decide⟩
 end GoFlags.C01
